@@ -25,7 +25,7 @@ RULE = ("token leg: account/password of printable ASCII (incl. + & = % space) or
         "credentials registered for udpid(id bytes, little or big endian) + the model cloud + Discover.discover(auto_connect=True): "
         "device token/key == registered pair, online, genuine handshake seen; for big endian the little-endian attempt failed "
         "first; variants: up to two more V3 devices answer the same discovery (their cloud round trips take time and overlap); the cloud fails during a first Discover.connect() and has recovered when the user retries. Non-trivial: token list with >= 2 entries and a near miss before the match, or a fault sequence with >= 1 retry, "
-        "or big-endian registration. Distinct by case.")
+        "or big-endian registration, or a cloud that knows only the registered ids (API error or empty token list for any other id; used with little-endian registrations, for which no other id needs to be asked about). Distinct by case.")
 ASSUMPTIONS = ["accounts and passwords are ASCII (the derivations encode with 'ASCII'); malformed JSON is not in the fault alphabet",
                "signature = sha256(path + '&'-joined sorted 'k=v' of the decoded form fields + app key), the public NetHome Plus scheme"]
 
@@ -175,6 +175,11 @@ def check_discovery(case: dict):
             world_hosts.append(dict(ip=hh["ip"], listen_port=6445, replies=[(0.05 + 0.001 * (i + 1) * m.get("stagger", 1), 6445, discsim.good_reply(hh))]))
             more.append((hh["ip"], mt, mk))
         res["more"] = more
+        if case.get("strict") and endian == "little" and all(m["endian"] == "little" for m in case.get("more", [])):
+            # a cloud that only knows registered ids (the device is registered under the first id asked about: nothing else
+            # needs to be looked up)
+            mc.known = {udpid} | {rc.udpid(m["id"].to_bytes(6, m["endian"])).hex() for m in case.get("more", [])}
+            mc.unknown_mode = case["strict"]
         discsim.UdpWorld(net, world_hosts)
         kw = {"account": acct, "password": pw} if acct else {"region": case.get("region", "US")}
         try:
@@ -244,7 +249,7 @@ def replay(ctx, case):
 def _run_one(ctx, case):
     import json
     if case.get("leg") == "discovery":
-        nt = case["endian"] == "big"
+        nt = case["endian"] == "big" or bool(case.get("strict"))
         cls = "discovery/" + case["endian"]
     else:
         tl = case.get("tokenlist")
@@ -271,7 +276,7 @@ def run(ctx) -> None:
     ctx.hyp("token", token_cases, lambda c: _run_one(ctx, c), ctx.n(3200, 160000))
     disc_cases = st.fixed_dictionaries({"leg": st.just("discovery"), "id": gens.device_ids(48).filter(lambda i: i.to_bytes(6, "little") != i.to_bytes(6, "big")),
                                         "endian": st.sampled_from(["little", "big"]), "port": st.sampled_from([6444, 6444, 7000])},
-                                       optional={"silent": st.booleans(), "more": st.lists(st.fixed_dictionaries({"id": gens.device_ids(48).filter(lambda i: i.to_bytes(6, "little") != i.to_bytes(6, "big")),
+                                       optional={"silent": st.booleans(), "strict": st.sampled_from([None, "api", "empty"]), "more": st.lists(st.fixed_dictionaries({"id": gens.device_ids(48).filter(lambda i: i.to_bytes(6, "little") != i.to_bytes(6, "big")),
                                                                                          "endian": st.sampled_from(["little", "big"]), "stagger": st.sampled_from([0, 1, 30, 200])}), max_size=2),
                                                  "outage": st.fixed_dictionaries({}, optional={
                                            "/v1/user/login/id/get": st.lists(st.sampled_from(["timeout", "timeout", "http500", "connect", "api:3101"]), min_size=1, max_size=3),
@@ -279,4 +284,14 @@ def run(ctx) -> None:
                                            "/v1/iot/secure/getToken": st.lists(st.sampled_from(["timeout", "timeout", "http404", "api:3106"]), min_size=1, max_size=3)}),
                                                  "account": text, "password": text, "region": st.sampled_from(["US", "DE", "KR"])}).map(
         lambda c: c if ("account" in c) == ("password" in c) else {k: v for k, v in c.items() if k not in ("account", "password")})
+    # deterministic: devices registered under the first (little-endian) id against a cloud that knows only registered ids
+    k = 0
+    for dev_id in (0x0000A1B2C3D4, 0x7F0000000001, 0x123456789ABC, 15393162840672, 147334558165565):
+        for strict in ("api", "empty"):
+            for silent in (False, True):
+                k += 1
+                if ctx.mine(k):
+                    case = {"leg": "discovery", "id": dev_id, "endian": "little", "port": 6444, "strict": strict, "silent": silent}
+                    ctx.check(case, lambda c: _run_one(ctx, c))
+    ctx.sweep("little-endian registrations x strict cloud modes x firmware answers", k, True)
     ctx.hyp("discovery", disc_cases, lambda c: _run_one(ctx, c), ctx.n(600, 32000))
